@@ -186,12 +186,14 @@ theorem autotyped_flip_witness :
     (roundTrip .votable ⟨[3], [⟨[115], .str, false, [.str [49], .str [50], .str [120]]⟩]⟩ none none).toOption =
       some [⟨[3], [⟨[115], false, 102, [.num 1, .num 2, .nan]⟩]⟩] := by decide +kernel
 
-/-- Outside the quantifier (CSV cannot tell an empty text from a missing value): `['', 'ab']`
-comes back as `['nan', 'ab']` — the masked fill stores the *text* `nan`; a column of empty texts
-comes back as the number −1. -/
+/-- Outside the quantifier (CSV cannot tell an empty text from a missing value): `['', 'abc']`
+comes back as `['nan', 'abc']` — the masked fill stores the *text* `nan` (cut to the column's
+item size: `['', 'ab']` gives `['na', 'ab']`); a column of empty texts comes back as the number −1. -/
 theorem ascii_empty_text_witness :
+    (roundTrip .csv ⟨[2], [⟨[115], .str, false, [.str [], .str [97, 98, 99]]⟩]⟩ none none).toOption =
+      some [⟨[2], [⟨[115], true, 115, [.str [110, 97, 110], .str [97, 98, 99]]⟩]⟩] ∧
     (roundTrip .csv ⟨[2], [⟨[115], .str, false, [.str [], .str [97, 98]]⟩]⟩ none none).toOption =
-      some [⟨[2], [⟨[115], true, 115, [.str [110, 97, 110], .str [97, 98]]⟩]⟩] ∧
+      some [⟨[2], [⟨[115], true, 115, [.str [110, 97], .str [97, 98]]⟩]⟩] ∧
     (roundTrip .csv ⟨[1], [⟨[115], .str, false, [.str []]⟩]⟩ none none).toOption =
       some [⟨[1], [⟨[115], false, 105, [.num (-1)]⟩]⟩] := by decide +kernel
 
